@@ -202,7 +202,7 @@ func ringSimple(r []ipt) bool {
 				} else {
 					s, p, q = a, b, c
 				}
-				if orient(s, p, q) == 0 && sign128(p.x-s.x, q.x-s.x, -(p.y - s.y), q.y-s.y) > 0 {
+				if orient(s, p, q) == 0 && sign128(p.x-s.x, q.x-s.x, -(p.y-s.y), q.y-s.y) > 0 {
 					return false
 				}
 				continue
